@@ -139,13 +139,13 @@ Qed.
 
 (* string.find = str_find_aux, for printable patterns that parse back to their tree *)
 Lemma find_refines_ref_lemma (p : seqpat) (pb s : bytes) (init : Z) :
-  seq_okb p = true -> print_seq p = Some pb -> goParse pb = ParseOk p ->
+  seq_okb p = true -> print_seq p = Some pb -> goParse pb = ParseOk p -> backrefs_ok p = true ->
   is_bytes s = true -> 1 + Z.of_nat (vm_fuel s (goCompile p)) <= maxRecursionLevel ->
   0 < len pb ->
   ref_find s pb init <> Err ->
   strFind s pb (Some init) = ref_find s pb init.
 Proof.
-  intros Hok Hpr Hparse Hs Hrl Hlp Hne.
+  intros Hok Hpr Hparse Hbr Hs Hrl Hlp Hne.
   unfold strFind, ref_find, ref_find_aux in *. cbv zeta in *.
   pose proof (len_nonneg s) as Hl.
   pose proof (init_norm (len s) init Hl) as Hin. cbv zeta in Hin. rewrite Hin. clear Hin.
@@ -155,7 +155,7 @@ Proof.
   { unfold i. destruct (posrelat init (len s) - 1 <? 0) eqn:E1; [lia|].
     destruct (posrelat init (len s) - 1 >? len s) eqn:E2; lia. }
   destruct (len pb =? 0) eqn:E0; [lia|].
-  unfold goFind. rewrite Hparse. unfold find_fuel.
+  unfold goFind. rewrite Hparse, Hbr. cbn [negb]. unfold find_fuel.
   apply (scan_equiv p pb s Hok Hpr Hparse Hs Hrl); [exact Hi|lia|exact Hne].
 Qed.
 
@@ -224,12 +224,12 @@ Proof.
 Qed.
 
 Lemma match_refines_ref_lemma (p : seqpat) (pb s : bytes) (init : Z) :
-  seq_okb p = true -> print_seq p = Some pb -> goParse pb = ParseOk p ->
+  seq_okb p = true -> print_seq p = Some pb -> goParse pb = ParseOk p -> backrefs_ok p = true ->
   is_bytes s = true -> 1 + Z.of_nat (vm_fuel s (goCompile p)) <= maxRecursionLevel ->
   ref_smatch s pb init <> Err ->
   strMatch s pb (Some init) = ref_smatch s pb init.
 Proof.
-  intros Hok Hpr Hparse Hs Hrl Hne.
+  intros Hok Hpr Hparse Hbr Hs Hrl Hne.
   unfold strMatch, ref_smatch, ref_find_aux in *. cbv zeta in *.
   pose proof (len_nonneg s) as Hl.
   pose proof (match_init_norm (len s) init Hl) as Hin. cbv zeta in Hin. rewrite Hin. clear Hin.
@@ -238,6 +238,6 @@ Proof.
   assert (Hi : 0 <= i <= len s).
   { unfold i. destruct (posrelat init (len s) - 1 <? 0) eqn:E1; [lia|].
     destruct (posrelat init (len s) - 1 >? len s) eqn:E2; lia. }
-  unfold goFind. rewrite Hparse. unfold find_fuel.
+  unfold goFind. rewrite Hparse, Hbr. cbn [negb]. unfold find_fuel.
   apply (scan_equiv_match p pb s Hok Hpr Hparse Hs Hrl); [exact Hi|lia|exact Hne].
 Qed.
